@@ -128,10 +128,14 @@ CLAIMED = {
              'query of every DAG (nx_eq_model; no disjointness needed), its deque loop leaves exactly the ancestral graph for '
              'any deque order, its union-find rounds equal weak connectivity. Lane: every labelled DAG <= 4 nodes + sampled 5-node DAGs (quick) / all '
              '29 281 DAGs on 5 nodes (thorough), all pairs, all conditioning subsets, three argument forms; '
-             'get_d_separation_set validated by predicate.',
+             'get_d_separation_set validated by predicate and compared with the transcription of networkx.minimal_d_separator; '
+             'that transcription (ancestors, moral graph of the ancestral sub-graph, BFS with marks) is proved to return a '
+             'minimal d-separator for every non-adjacent pair of every DAG (nxMinimalDSeparator_isMinimal), and the '
+             'transcription of is_minimal_d_separator is proved equal to the definitional predicate for ALL u, v, Z '
+             '(nxIsMinimalDSeparator_eq), via the moralisation theorem and the Tian-Paz closure step.',
         note=_COMMON_NOTE + 'networkx.d_separated: trusted only to be the ~30 lines transcribed in CG/Model/NxDSep.lean (read, and '
-                            'measured on every query); minimal_d_separator / is_minimal_d_separator are assumed to compute the '
-                            'definitional notions (measured exhaustively); with networkx 3.2.1 is_minimal_d_separator already '
+                            'measured on every query); minimal_d_separator / is_minimal_d_separator / _bfs_with_marks / moral_graph: trusted only '
+                            'to be the lines transcribed in CG/Model/NxMinSep.lean (measured on the queries of the lane); with networkx 3.2.1 is_minimal_d_separator already '
                             'checks separation, so the extra conjunct in the code is exercised with a 3.1-style stand-in.'),
     'C12': dict(
         technique='Lean 4 proof (regex executed by hand in priority order: parse/format round trip for all names and lags) with '
